@@ -263,10 +263,10 @@ func c09BGV(ctx *core.RunCtx, scaleInvariant bool) *c09Scheme {
 			ev(e).DropLevel(a, 1)
 			return nil
 		}},
-		{name: "rlwe.Automorphism", op1: []int{vNone}, ks: c09Rotations, needDeg1: true, callerSetsMeta: true, deg: degOne, call: func(e any, a *rlwe.Ciphertext, b any, k int, o *rlwe.Ciphertext) error {
+		{name: "rlwe.Automorphism", op1: []int{vNone}, ks: c09Rotations, needDeg1: true, deg: degOne, call: func(e any, a *rlwe.Ciphertext, b any, k int, o *rlwe.Ciphertext) error {
 			return ev(e).Automorphism(a, bp.GaloisElement(k), o)
 		}},
-		{name: "rlwe.ApplyEvaluationKey", op1: []int{vNone}, needDeg1: true, callerSetsMeta: true, deg: degOne, call: func(e any, a *rlwe.Ciphertext, b any, k int, o *rlwe.Ciphertext) error {
+		{name: "rlwe.ApplyEvaluationKey", op1: []int{vNone}, needDeg1: true, deg: degOne, call: func(e any, a *rlwe.Ciphertext, b any, k int, o *rlwe.Ciphertext) error {
 			return ev(e).ApplyEvaluationKey(a, &cc.evk.RelinearizationKey.EvaluationKey, o)
 		}},
 		{name: "rgsw.ExternalProduct", op1: []int{vRGSW}, needDeg1: true, needMaxLevel: true, callerSetsMeta: true, deg: degOne, call: func(e any, a *rlwe.Ciphertext, b any, k int, o *rlwe.Ciphertext) error {
@@ -309,6 +309,64 @@ func c09BGV(ctx *core.RunCtx, scaleInvariant bool) *c09Scheme {
 		e2 := bgv.NewEncoder(bp)
 		v := randVec(g)
 		vh := hashOperand(v)
+		{
+			// the plaintext-ring entry points (used by the share conversions): values -> R_T -> values at a
+			// drawn scale, R_T <-> R_Q; every argument but the designated output stays as it was
+			rT := bp.RingT()
+			scl := bp.NewScale(1 + g.Next()%1000)
+			pT, pT2 := rT.NewPoly(), rT.NewPoly()
+			rt1 := c09Exec(func() error { return e1.EncodeRingT(v, scl, pT) })
+			rt2 := c09Exec(func() error { return e2.EncodeRingT(v, scl, pT2) })
+			ctx.Count("oracle.encoder-twin", 1)
+			if rt1.kind != rt2.kind || rt1.kind == 0 && hashPoly(1, pT) != hashPoly(1, pT2) {
+				ctx.Fail("result", sc.name+"|Encoder.EncodeRingT|differs", "EncodeRingT on the used (poisoned) encoder differs from a new encoder (%s / %s)", rt1, rt2)
+				return false
+			}
+			if hashOperand(v) != vh {
+				ctx.Fail("inputs", sc.name+"|Encoder.EncodeRingT|values-modified", "EncodeRingT modified the caller's slice of values")
+				return false
+			}
+			if rt1.kind == 0 {
+				hT := hashPoly(1, pT)
+				d1, d2 := make([]uint64, len(v)), make([]uint64, len(v))
+				core.PoisonScratch(e1, core.NewXoshiro(g.Next()))
+				t1 := c09Exec(func() error { return e1.DecodeRingT(pT, scl, d1) })
+				t2 := c09Exec(func() error { return e2.DecodeRingT(pT2, scl, d2) })
+				if hashPoly(1, pT) != hT {
+					ctx.Fail("inputs", sc.name+"|Encoder.DecodeRingT|polynomial-modified", "DecodeRingT modified its input polynomial (scale %d)", scl.Uint64())
+					return false
+				}
+				if t1.kind != t2.kind || hashOperand(d1) != hashOperand(d2) || t1.kind == 0 && hashOperand(d1) != vh {
+					ctx.Fail("result", sc.name+"|Encoder.DecodeRingT|differs", "DecodeRingT on the used (poisoned) encoder differs from a new encoder or from the encoded values (%s / %s)", t1, t2)
+					return false
+				}
+				lvl := int(g.Next() % uint64(bp.MaxLevel()+1))
+				pQ, pQ2 := bp.RingQ().AtLevel(lvl).NewPoly(), bp.RingQ().AtLevel(lvl).NewPoly()
+				up := g.Next()%2 == 0
+				e1.RingT2Q(lvl, up, pT, pQ)
+				e2.RingT2Q(lvl, up, pT2, pQ2)
+				if hashPoly(1, pT) != hT {
+					ctx.Fail("inputs", sc.name+"|Encoder.RingT2Q|polynomial-modified", "RingT2Q modified its input polynomial")
+					return false
+				}
+				if ok, w := eqPoly(bp.RingQ().AtLevel(lvl), pQ, pQ2); !ok {
+					ctx.Fail("result", sc.name+"|Encoder.RingT2Q|differs", "RingT2Q on the used encoder differs from a new encoder: %s", w)
+					return false
+				}
+				hQ := hashPoly(1, pQ)
+				back, back2 := rT.NewPoly(), rT.NewPoly()
+				e1.RingQ2T(lvl, up, pQ, back)
+				e2.RingQ2T(lvl, up, pQ2, back2)
+				if hashPoly(1, pQ) != hQ {
+					ctx.Fail("inputs", sc.name+"|Encoder.RingQ2T|polynomial-modified", "RingQ2T modified its input polynomial")
+					return false
+				}
+				if hashPoly(1, back) != hashPoly(1, back2) {
+					ctx.Fail("result", sc.name+"|Encoder.RingQ2T|differs", "RingQ2T on the used encoder differs from a new encoder")
+					return false
+				}
+			}
+		}
 		level := int(g.Next() % uint64(bp.MaxLevel()+1))
 		p1, p2 := bgv.NewPlaintext(bp, level), bgv.NewPlaintext(bp, level)
 		s1 := c09Exec(func() error { return e1.Encode(v, p1) })
@@ -623,10 +681,10 @@ func c09CKKS(ctx *core.RunCtx) *c09Scheme {
 			}
 			return ev(e).RescaleTo(a, min, o)
 		}},
-		{name: "rlwe.Automorphism", op1: []int{vNone}, ks: c09Rotations, needDeg1: true, callerSetsMeta: true, deg: degOne, call: func(e any, a *rlwe.Ciphertext, b any, k int, o *rlwe.Ciphertext) error {
+		{name: "rlwe.Automorphism", op1: []int{vNone}, ks: c09Rotations, needDeg1: true, deg: degOne, call: func(e any, a *rlwe.Ciphertext, b any, k int, o *rlwe.Ciphertext) error {
 			return ev(e).Automorphism(a, cp.GaloisElement(k), o)
 		}},
-		{name: "rlwe.ApplyEvaluationKey", op1: []int{vNone}, needDeg1: true, callerSetsMeta: true, deg: degOne, call: func(e any, a *rlwe.Ciphertext, b any, k int, o *rlwe.Ciphertext) error {
+		{name: "rlwe.ApplyEvaluationKey", op1: []int{vNone}, needDeg1: true, deg: degOne, call: func(e any, a *rlwe.Ciphertext, b any, k int, o *rlwe.Ciphertext) error {
 			return ev(e).ApplyEvaluationKey(a, &cc.evk.RelinearizationKey.EvaluationKey, o)
 		}},
 		{name: "ScaleUp", op1: []int{vNone}, ks: []int{2, 3, 1024}, deg: degSame, call: func(e any, a *rlwe.Ciphertext, b any, k int, o *rlwe.Ciphertext) error {
@@ -670,7 +728,9 @@ func c09CKKS(ctx *core.RunCtx) *c09Scheme {
 				ctx.Fail("result", "ckks|Encoder.Encode|differs", "Encode on a used encoder with poisoned buffers differs from a new encoder: %s", w)
 				return false
 			}
-			d1, d2 := make([]complex128, len(v)), make([]complex128, len(v))
+			// the caller's slice may be longer than the number of slots of the plaintext
+			dl := len(v) + int(g.Next()%3)*len(v)/2
+			d1, d2 := make([]complex128, dl), make([]complex128, dl)
 			ph := hashOperand(p1)
 			core.PoisonScratch(e1, core.NewXoshiro(g.Next()))
 			t1 := c09Exec(func() error { return e1.Decode(p1, d1) })
@@ -682,6 +742,81 @@ func c09CKKS(ctx *core.RunCtx) *c09Scheme {
 			if hashOperand(p1) != ph {
 				ctx.Fail("inputs", "ckks|Encoder.Decode|plaintext-modified", "Decode modified its input plaintext")
 				return false
+			}
+		}
+		// every accepted slice type, batched (slots) and not (coefficients), shorter than the capacity, into a
+		// plaintext that held something else before: equal to a new encoder writing into a new plaintext
+		for rep := 0; rep < 2; rep++ {
+			batched := g.Next()%2 == 0
+			maxLen := cp.MaxSlots()
+			logCols := cp.LogMaxSlots()
+			if batched && g.Next()%2 == 0 {
+				// sparse packing
+				logCols = int(g.Next() % uint64(cp.LogMaxSlots()+1))
+				maxLen = 1 << logCols
+			}
+			coeffDomain := g.Next()%3 == 0 // the plaintext asks for an encoding outside the NTT domain
+			if !batched {
+				maxLen = cp.N()
+			}
+			n := 1 + int(g.Next()%uint64(maxLen))
+			fl := make([]float64, n)
+			for i := range fl {
+				fl[i] = rf(g)
+			}
+			var vals any
+			kind := int(g.Next() % 4)
+			switch kind {
+			case 0:
+				vals = fl
+			case 1:
+				b := make([]*big.Float, n)
+				for i := range b {
+					b[i] = new(big.Float).SetPrec(128).SetFloat64(fl[i])
+				}
+				vals = b
+			case 2:
+				c := make([]complex128, n)
+				for i := range c {
+					c[i] = complex(fl[i], 0)
+					if batched {
+						c[i] = complex(fl[i], rf(g))
+					}
+				}
+				vals = c
+			default:
+				c := make([]*bignum.Complex, n)
+				for i := range c {
+					im := 0.0
+					if batched {
+						im = rf(g)
+					}
+					c[i] = &bignum.Complex{new(big.Float).SetPrec(128).SetFloat64(fl[i]), new(big.Float).SetPrec(128).SetFloat64(im)}
+				}
+				vals = c
+			}
+			lvl := int(g.Next() % uint64(cp.MaxLevel()+1))
+			q1, q2 := ckks.NewPlaintext(cp, lvl), ckks.NewPlaintext(cp, lvl)
+			q1.IsBatched, q2.IsBatched = batched, batched
+			q1.LogDimensions.Cols, q2.LogDimensions.Cols = logCols, logCols
+			if coeffDomain {
+				q1.IsNTT, q2.IsNTT = false, false
+			}
+			catalog.FillPoly(cp.RingQ().AtLevel(lvl), q1.Value, g) // previous content
+			core.PoisonScratch(e1, core.NewXoshiro(g.Next()))
+			u1 := c09Exec(func() error { return e1.Encode(vals, q1) })
+			u2 := c09Exec(func() error { return e2.Encode(vals, q2) })
+			ctx.Count("oracle.encoder-twin", 1)
+			what := fmt.Sprintf("Encode(%T of %d values, batched=%v, 2^%d slots, NTT=%v) into a plaintext with previous content", vals, n, batched, logCols, !coeffDomain)
+			if u1.kind != u2.kind {
+				ctx.Fail("status", "ckks|Encoder.Encode|status-differs", "%s -> %s ; a new encoder into a new plaintext -> %s", what, u1, u2)
+				return false
+			}
+			if u1.kind == 0 {
+				if ok, w := eqPoly(cp.RingQ().AtLevel(lvl), q1.Value, q2.Value); !ok {
+					ctx.Fail("result", "ckks|Encoder.Encode|reused-plaintext-differs", "%s differs from a new encoder writing into a new plaintext: %s", what, w)
+					return false
+				}
 			}
 		}
 		return true
